@@ -27,6 +27,8 @@ callback, a (skip)ped callback, a varargs callback) and then
     invariants, a live qualified reference FooDep.* must be present (rule type-requalified)
  F  containers: GHashTable with (good key, bad value) / (bad, good) / (bad, bad) / (good, good) for every kind of
     unbindable element, lists and arrays of each element, nested containers, in every slot kind and as a property
+ G  callables hosted by a registered enumeration, a bitfield and a boxed type without struct (runtime dump):
+    every atom of part A as parameter and return value of their static functions / methods, varargs functions
  D  cross references: closure/destroy/array-length annotations naming every parameter
     (functions, methods, callbacks, fields), rename-to pairs, GObject classes whose
     properties (from a generated runtime dump) have exotic types and accessor methods,
@@ -52,7 +54,7 @@ INCLUDES = ['Gio-2.0']
 # ------------------------------------------------------------------ case DSL --
 # A case is JSON-able: {'part': 'A', 'decls': [spec...], 'comments': [text...], 'dump': str|None, 'note': str}
 # spec: ['td', name, target] | ['st', tag, [fieldspec...], union?] | ['cb', name, ret, params, varargs]
-#       | ['fn', name, ret, params, varargs]
+#       | ['fn', name, ret, params, varargs] | ['en', name, [[ident, value]...], bitfield?]
 # fieldspec: ['f', name, type] | ['fcb', name, ret, params, varargs] | ['fa', name, type, n] | ['fu', name, fields, union?]
 
 
@@ -72,6 +74,8 @@ def build(spec):
             else:
                 fields.append(FieldCb(f[1], f[2], [tuple(p) for p in f[3]], varargs=bool(f[4])))
         return Struct(spec[1], fields, union=bool(spec[3]) if len(spec) > 3 else False)
+    if k == 'en':        # ['en', name, [[ident, value]...], bitfield?]
+        return fake.Enum(spec[1], [tuple(m) for m in spec[2]], bitfield=bool(spec[3]))
     if k == 'cb':
         return Callback(spec[1], spec[2], [tuple(p) for p in spec[3]], varargs=bool(spec[4]))
     if k == 'fn':
@@ -95,7 +99,40 @@ def fn(name, ret, params, varargs=False):
     return ['fn', name, ret, [list(p) for p in params], varargs]
 
 
+def _well_formed(ann):
+    """generator self-check: brackets balance; no space inside a bracketed type argument list; (type T) has
+    exactly one option (a space inside T, as in 'long long', would end it)"""
+    ann = ann or ''
+    depth = 0
+    body = ''
+    for ch in ann:
+        if ch == '(':
+            depth += 1
+            if depth == 1:
+                body = ''
+                continue
+        elif ch == ')':
+            depth -= 1
+            if depth < 0:
+                return False
+            if depth == 0:
+                words = body.split(' ')
+                if words[0] == 'type' and len(words) != 2:
+                    return False
+                if words[0] == 'element-type' and len(words) not in (2, 3):
+                    return False
+                continue
+        if ch == ' ' and depth > 1:
+            return False
+        if depth >= 1:
+            body += ch
+    return depth == 0
+
+
 def blk(name, params=(), ret=None, ident=''):
+    for a in [ident] + [p[1] for p in params] + ([ret[0]] if ret else []):
+        if not _well_formed(a):
+            raise HarnessBroken('generator produced a malformed annotation: %r' % a)
     return scanrun.block(name, params=params, ret=ret, ident_ann=ident)
 
 
@@ -138,7 +175,7 @@ ANNS_QUICK = ['', '(skip)', '(transfer none)', '(transfer full)', '(scope call)'
 ANNS_MORE = ['(type utf8)', '(type FooSkip)', '(type FooVaCb)', '(array)', '(scope async)', '(transfer container)',
              '(element-type Foo.Obj)', '(element-type GLib.List)', '(type GLib.List(FooUnknown))',
              '(type GLib.HashTable(utf8,FooSkip))', '(inout)', '(closure)', '(not nullable)',
-             '(array zero-terminated=1) (element-type FooUnknown)', '(type long long)']
+             '(array zero-terminated=1) (element-type FooUnknown)', '(type gint64)']
 
 
 def slot_template(a, ann, extra=()):
@@ -195,6 +232,48 @@ def part_e(tier):
     return cases
 
 
+def part_g(tier):
+    """Callables hosted by types other than records and classes: static functions of a GType-registered
+    enumeration and bitfield, constructor / method / static function of a boxed type without visible struct
+    (all three registered through the runtime dump), each taking and returning every atom of part A, plus a
+    varargs function per host."""
+    atoms = ATOMS_QUICK + (ATOMS_MORE if tier == 'thorough' else [])
+    # ((type <unresolvable>) is left to part A: on a container atom it is the listed finding
+    # gen:A:element-type-missing:callable:without-element-type, independent of the host)
+    anns = [''] + (['(element-type utf8)', '(scope call)', '(transfer full)', '(skip)', '(nullable)']
+                   if tier == 'thorough' else ['(skip)'])
+    dump = ('<?xml version="1.0"?><dump>'
+            '<enum name="FooColor" get-type="foo_color_get_type"><member name="FOO_COLOR_RED" nick="red" value="0"/>'
+            '<member name="FOO_COLOR_BLUE" nick="blue" value="1"/></enum>'
+            '<flags name="FooBits" get-type="foo_bits_get_type"><member name="FOO_BITS_A" nick="a" value="1"/>'
+            '<member name="FOO_BITS_B" nick="b" value="2"/></flags>'
+            '<boxed name="FooBx" get-type="foo_bx_get_type"/></dump>')
+    cases = []
+    for a in atoms:
+        for ann in anns:
+            decls = ENV + [
+                ['en', 'FooColor', [['FOO_COLOR_RED', 0], ['FOO_COLOR_BLUE', 1]], False],
+                ['en', 'FooBits', [['FOO_BITS_A', 1], ['FOO_BITS_B', 2]], True],
+                fn('foo_color_get_type', 'GType', []), fn('foo_bits_get_type', 'GType', []), fn('foo_bx_get_type', 'GType', []),
+            ]
+            com = list(ENV_COMMENTS)
+            for host in ('color', 'bits', 'bx'):
+                decls += [fn('foo_%s_p' % host, 'void', [(a, 'p')]), fn('foo_%s_r' % host, a, []),
+                          fn('foo_%s_format' % host, 'void', [('int', 'n')], varargs=True),
+                          fn('foo_%s_ok' % host, 'int', [('int', 'n')])]
+                if ann:
+                    com.append(blk('foo_%s_p' % host, params=[('p', ann, 'p')]))
+                    com.append(blk('foo_%s_r' % host, ret=(ann, 'r')))
+            decls += [fn('foo_bx_new', 'FooBx*', []), fn('foo_bx_m', 'void', [('FooBx*', 'self'), (a, 'p')]),
+                      fn('foo_bx_mr', a, [('FooBx*', 'self')])]
+            if ann:
+                com.append(blk('foo_bx_m', params=[('p', ann, 'p')]))
+                com.append(blk('foo_bx_mr', ret=(ann, 'r')))
+            cases.append({'part': 'G', 'decls': decls, 'comments': com, 'dump': dump, 'hosts': True,
+                          'note': 'functions of registered enum/flags/boxed: atom %s, annotation %s' % (a, ann or '-')})
+    return cases
+
+
 def part_f(tier):
     """Container alphabet: GHashTable with (good key, bad value), (bad key, good value), (bad, bad), (good, good) for
     every kind of bad element (unknown name, demoted callback, skipped record, skipped callback, forbidden atom),
@@ -203,7 +282,9 @@ def part_f(tier):
     bad = ['FooUnknown', 'Foo.NoSuch', 'Foo.VaCb', 'Foo.Skip', 'Foo.SkipCb', 'va_list']
     if tier == 'thorough':
         good += ['gpointer', 'Foo.OkCb', 'GLib.Variant']
-        bad += ['GLib.NoSuch', 'Foo.NoScopeCb', 'long long', 'FooSkip*']
+        # no C spellings with a space ('long long', 'long double'): inside an annotation the space ends the
+        # option, leaving a malformed type string - those atoms can only come from C declarations (part A)
+        bad += ['GLib.NoSuch', 'Foo.NoScopeCb', 'Foo.LLCb', 'FooSkip*']
     pairs = [(k, v) for k in good[:2] for v in bad] + [(k, v) for k in bad for v in good[:2]] + \
             [(k, v) for k in bad[:3] for v in bad[:3]] + [(k, v) for k in good for v in good]
     anns = []
@@ -599,7 +680,7 @@ def rename_shape(assign):
     return 'simple'
 
 
-PARTS = {'A': part_a, 'B': part_b, 'C': part_c, 'D': part_d, 'E': part_e, 'F': part_f}
+PARTS = {'A': part_a, 'B': part_b, 'C': part_c, 'D': part_d, 'E': part_e, 'F': part_f, 'G': part_g}
 
 
 # ---------------------------------------------------------------- execution --
@@ -790,7 +871,7 @@ def run(ctx):
     tier = ctx.tier
     cases = []
     sizes = {}
-    for name in 'ABCDEF':
+    for name in 'ABCDEFG':
         cs = PARTS[name](tier)
         sizes[name] = len(cs)
         cases += cs
